@@ -34,7 +34,7 @@ CHECKS = {
    technique="complete enumeration of a finite truth-table space on the real solver",
    ref="5/C06"),
  "C07": dict(
-   text="All needles x all haystacks over small alphabets up to length bounds x every relation and case flag, singly and in all pairs / triples / quads of mixed members (as loaded and after optimisation), against the naive relation on &str and against the OR of the engine's own single-member verdicts.",
+   text="Or-groups of regexes that each compile but together exceed the regex set size limit (2-5 members, four rule forms, every switch set) must match exactly when a member matches on its own. All needles x all haystacks over small alphabets up to length bounds x every relation and case flag, singly and in all pairs / triples / quads of mixed members (as loaded and after optimisation), against the naive relation on &str and against the OR of the engine's own single-member verdicts.",
    note="Regexes outside the harness's small backtracking matcher fall back to the regex crate; longer and multi-byte strings are a seeded sample.",
    technique="bounded-exhaustive enumeration of (pattern list, haystack) against a reference model",
    ref="5/C07"),
@@ -79,7 +79,7 @@ CHECKS = {
    technique="bounded-exhaustive differential enumeration across two builds (configurations)",
    ref="5/C15"),
  "C16": dict(
-   text="Every rule x switch set (all distinct optimised trees) x documents on a recording document that logs every get() on the document and on nested objects: keys asked must be written in the rule, synthetic keys are never asked, and adding unaddressed fields (including the synthetic names) never changes the verdict. A second recorder at Document level checks that every key string presented to Document::find is, verbatim, a key written at the top level of an identifier or a field of the condition. Repeated in a harness built against tau-engine/sync.",
+   text="Every rule x switch set (all distinct optimised trees) x documents on a recording document that logs every get() on the document and on nested objects: keys asked must be written in the rule, synthetic keys are never asked, and adding unaddressed fields (including the synthetic names) never changes the verdict. A second recorder at Document level checks that every key string presented to Document::find is, verbatim, a key written at the top level of an identifier or a field of the condition. A strided slice of the exploration is repeated in harnesses built against tau-engine/sync and tau-engine/ignore_case; the rule's own names in another case count as unaddressed fields.",
    note="Key attribution is by segment name, not exact nesting path.",
    technique="bounded-exhaustive exploration with an execution invariant on the recorded environment interaction",
    ref="5/C16"),
